@@ -973,7 +973,8 @@ pub fn wake_due_gates() {
 // ---------------------------------------------------------------------------
 
 fn ms(v: Option<u64>) -> Option<Duration> {
-    v.map(Duration::from_millis)
+    // u64::MAX stands for "practically no timeout": the largest Duration there is
+    v.map(|v| if v == u64::MAX { Duration::MAX } else { Duration::from_millis(v) })
 }
 
 pub enum Built {
